@@ -26,7 +26,7 @@ RULE = (
     "multi-line strings, bracketed and backslash continuations, with comments, non-ASCII, markup-like text, very long lines; "
     "empty file; file deleted after import; exec-compiled source-less code; failure while importing) x statements {raise "
     "ValueError/KeyError/custom, 1/0, assert, raise ... from} x messages {plain, multi-line, non-ASCII, balanced / opening / "
-    "closing / crossed style tags, escaped tag, 5 kB, empty} x recursion depth 1-60 (direct and mutual) x verbosity x UTF-8 "
+    "closing / crossed style tags, escaped tag, 5 kB, empty} x exception object {as raised; every third case re-raised as one of 19 unusual types: providing a solution (5 title/description/link texts, rendered with a solution-provider repository), being a solution, KeyboardInterrupt / SystemExit subclasses, ExceptionGroup, OSError with file name, UnicodeDecodeError, SyntaxError, class names made with type() (markup-like, non-ASCII), overridden __str__, with notes, without / with two arguments} x recursion depth 1-60 (direct and mutual) x verbosity x UTF-8 "
     "on/off x simple/full x ANSI/plain x ignore pattern. Clauses: render never raises; class name and message present "
     "(markup and whitespace aside); the final snippet numbers lines consecutively, marks exactly the failing line "
     "(= tb_lineno) and shows every line made of single-line tokens verbatim; ignored files absent from the stack listing "
@@ -34,7 +34,7 @@ RULE = (
     "modules. non-trivial = exception with a file-backed failing frame below depth 1 or a markup / multi-line message; "
     "distinct by (source shape, position, statement, message class, verbosity, flags)."
 )
-BOUND = {"quick": "700 renders + highlighter over the repository's own 200 files", "thorough": "250000 renders + highlighter over repository, tests and 300 standard-library modules"}
+BOUND = {"quick": "about 4500 renders + highlighter over the repository's own 200 files", "thorough": "250000 renders + highlighter over repository, tests and 300 standard-library modules"}
 ASSUMPTIONS = [
     "'message present' compares after removing style tags and backslash escapes from both sides and collapsing whitespace",
     "a line is 'made of single-line tokens' when Python's tokenize reports no token spanning several lines on it",
@@ -153,6 +153,7 @@ class Env(object):
         self.ExceptionTrace, self.Highlighter = ExceptionTrace, Highlighter
         self.workdir = workdir
         self.counter = 0
+        self.variants = exception_variants(self)
         os.makedirs(os.path.join(workdir, "ignoredpkg"), exist_ok=True)
         with open(os.path.join(workdir, "ignoredpkg", "relay.py"), "w") as f:
             f.write("def relay(cb, *a):\n    return cb(*a)\n\n\ndef relay2(cb, *a):\n    return relay(cb, *a)\n")
@@ -230,10 +231,73 @@ def exec_sourceless(message, kind):
     return None
 
 
-def render(env, exc, verbosity, ansi, utf8, simple, ignore=None):
+SOLUTION_TEXTS = [
+    ("Install it.", "Run the installer", []),
+    ("Title with <b>markup</b>", "a stray </info> and an <info>unclosed tag\nsecond line", ["https://example.org/a", "https://example.org/<b>"]),
+    ("", "", []),
+    ("ends with backslash\\", "description \\", ["link\\"]),
+    ("1 < 2", "échec: 失敗 ✓ " * 40, ["l1", "l2", "l3"]),
+]
+
+
+def exception_variants(env):
+    """Exception objects of unusual types: (label, factory(message) -> exception, uses_solutions)."""
+    from crashtest.contracts.base_solution import BaseSolution
+    from crashtest.contracts.provides_solution import ProvidesSolution
+    from crashtest.contracts.solution import Solution
+
+    def provides(k):
+        title, desc, links = SOLUTION_TEXTS[k]
+
+        class Solved(Exception, ProvidesSolution):
+            @property
+            def solution(self):
+                s = BaseSolution(title, desc)
+                s._links = list(links)
+                return s
+
+        return Solved
+
+    class IsSolution(Exception, Solution):
+        solution_title = "Fix <fg=red>it</>."
+        solution_description = "Do this\nthen that"
+        documentation_links = ["https://example.org/doc"]
+
+    class Interrupted(KeyboardInterrupt):
+        pass
+
+    class StrOverride(Exception):
+        def __str__(self):
+            return "overridden: %s" % (self.args[0],)
+
+    def noted(m):
+        e = ValueError(m)
+        e.add_note("a note with <b>markup")
+        return e
+
+    out = [("provides-%d" % k, provides(k), True) for k in range(len(SOLUTION_TEXTS))]
+    out += [
+        ("is-solution", IsSolution, True), ("keyboard-interrupt", Interrupted, False), ("system-exit", SystemExit, False),
+        ("group", lambda m: ExceptionGroup(m, [ValueError("inner"), KeyError("k")]), False),
+        ("oserror", lambda m: OSError(2, m, "/no/such/<b>file"), False),
+        ("unicode-error", lambda m: UnicodeDecodeError("utf-8", b"\xff", 0, 1, m), False),
+        ("syntax-error", lambda m: SyntaxError(m, ("file.py", 3, 1, "x ==\n")), False),
+        ("odd-class-name", type("Odd<b>Name", (Exception,), {}), False), ("unicode-class-name", type("Ünï\u00e7ode", (Exception,), {}), False),
+        ("str-override", StrOverride, False), ("noted", noted, False), ("no-args", lambda m: RuntimeError(), False),
+        ("two-args", lambda m: ValueError(m, 42), False), ("stop-iteration", StopIteration, False),
+    ]
+    return out
+
+
+def render(env, exc, verbosity, ansi, utf8, simple, ignore=None, solutions=False):
     io = env.BufferedIO("", env.AnsiFormatter(forced=True) if ansi else env.PlainFormatter(), supports_utf8=utf8)
     io.set_verbosity(verbosity)
-    t = env.ExceptionTrace(exc)
+    if solutions:
+        from crashtest.solution_providers.solution_provider_repository import SolutionProviderRepository
+
+        t = env.ExceptionTrace(exc, SolutionProviderRepository())
+    else:
+        t = env.ExceptionTrace(exc)
     if ignore:
         t.ignore_files_in(ignore)
     t.render(io, simple)
@@ -256,7 +320,9 @@ def judge_render(sh, env, exc, case, source, fail_line, path, available):
             sh.case((case["shape"], case["msg_class"], verbosity, simple, case["ansi"], case["utf8"], case["mode"], case["depth"] > 1),
                     (case["depth"] >= 1 and available and source is not None) or case["msg_class"] not in ("plain", "empty"))
             try:
-                out = render(env, exc, verbosity, case["ansi"], case["utf8"], simple)
+                out = render(env, exc, verbosity, case["ansi"], case["utf8"], simple, solutions=case.get("solutions", False))
+                if case.get("solutions") and not simple:
+                    sh.count("solution_renders")
             except Exception as e:
                 tb = traceback.extract_tb(e.__traceback__)[-1]
                 sh.violate("render-raises", rec, "render(simple=%s, verbosity=%d) raised %r at %s:%s" % (simple, verbosity, e, os.path.basename(tb.filename), tb.lineno))
@@ -278,7 +344,7 @@ def judge_render(sh, env, exc, case, source, fail_line, path, available):
                 sh.violate("message-missing", rec, "message %r not found in the %s report %r" % (normalise(msg)[:80], "simple" if simple else "full", normalise(out)[:200]))
             if simple:
                 continue
-            if cls not in text:
+            if cls not in text and normalise(cls) not in normalise(text):  # a class name made with type() may itself look like markup
                 sh.violate("class-missing", rec, "class name %s not in the report" % cls)
             if source is None or not available:
                 continue
@@ -419,6 +485,17 @@ def run_renders(sh, env, n):
             continue
         if mc["entry"] is None:
             case["msg_class"] = "plain"
+        elif i % 3 == 1:
+            # the same failure reported through an exception object of an unusual type (same traceback)
+            label, factory, uses = rng.choice(env.variants)
+            try:
+                exc = factory(message).with_traceback(exc.__traceback__)
+            except Exception as e:
+                sh.note("variant %s could not be built: %r" % (label, e))
+            else:
+                case["variant"], case["solutions"] = label, uses
+                case["shape"] = tuple(case["shape"]) + (label,)
+                sh.count("variant_cases")
         judge_render(sh, env, exc, case, mc["source"], mc["fail_line"], path, available)
         if i < 1:
             sh.sample({"source": mc["source"][:600], "fail_line": mc["fail_line"], "message": message[:60], "depth": depth, "mode": mode})
@@ -488,7 +565,7 @@ def judge_highlight(sh, env, source, label):
 
 def plan(tier, seed):
     if tier == "quick":
-        return [{"part": "renders", "n": 60} for _ in range(3)] + [{"part": "corpus", "slice": [0, 1]}]
+        return [{"part": "renders", "n": 150} for _ in range(8)] + [{"part": "corpus", "slice": [0, 1]}]
     return [{"part": "renders", "n": 4300} for _ in range(14)] + [{"part": "corpus", "slice": [i, 2]} for i in range(2)]
 
 
